@@ -945,6 +945,62 @@ where
                 }
             }
         }
+        // C03 attack classes at trait level: the library's prover run on another polynomial (with that
+        // polynomial's own state) against the commitment of p; a proof for another point replayed
+        if prop == "C03" {
+            // (i) prover on q against commitment(p), claiming q(z) != p(z)
+            let j = range(&mut rng, 0, inst.polys.len() - 1);
+            let old = inst.polys[j].clone();
+            let q = S::rand_poly(&mut rng, &inst.sizes, old.degree().max(1));
+            let lq = LabeledPolynomial::new(old.label().clone(), q, old.degree_bound(), old.hiding_bound());
+            if let Ok(Ok((cq, stq))) = guarded(|| S::PC::commit(&inst.ck, [&lq], Some(&mut rng.clone()))) {
+                let pt = S::rand_point(&mut rng, &inst.sizes);
+                let vq = lq.evaluate(&pt);
+                if vq != old.evaluate(&pt) {
+                    let mut sp2 = fresh_sponge();
+                    let pr = guarded(|| S::PC::open(&inst.ck, [&lq], &cq, &pt, &mut sp2, &stq, Some(&mut rng.clone())));
+                    if let Ok(Ok(pr)) = pr {
+                        let id = format!("{}/other-polynomial", id0);
+                        let mut vs2 = fresh_sponge();
+                        let o = Outcome::from(guarded(|| S::PC::check(&inst.vk, [&inst.comms[j]], &pt, [vq], &pr, &mut vs2, Some(&mut rng.clone()))));
+                        if o.accepted() {
+                            ctx.rep.expect_fail(&id, &format!("{}/forged-proof-accepted/other-polynomial", S::NAME),
+                                "proof computed from another polynomial accepted for a false value against the original commitment",
+                                fail_replay(&inst, &id, ctx.seed, &format!("polynomial {} replaced on the prover's side", j)));
+                        }
+                        ctx.rep.count(&format!("{}/forge-other-polynomial", S::NAME));
+                        ctx.rep.case(&format!("{} forge=other-polynomial out={:?}", inst.desc(), o), Some(format!("{}/{}/forge-otherpoly", S::NAME, npoly)));
+                    }
+                }
+            }
+            // (ii) an honest single-point proof for z' presented at z with the value p(z')
+            let pt1 = S::rand_point(&mut rng, &inst.sizes);
+            let pt2 = S::rand_point(&mut rng, &inst.sizes);
+            let p0 = &inst.polys[j];
+            let v1 = p0.evaluate(&pt1);
+            if v1 != p0.evaluate(&pt2) {
+                let mut sp3 = fresh_sponge();
+                let pr = guarded(|| S::PC::open(&inst.ck, [p0], [&inst.comms[j]], &pt1, &mut sp3, [&inst.states[j]], Some(&mut rng.clone())));
+                if let Ok(Ok(pr)) = pr {
+                    let id = format!("{}/other-point", id0);
+                    let mut vs3 = fresh_sponge();
+                    let o = Outcome::from(guarded(|| S::PC::check(&inst.vk, [&inst.comms[j]], &pt2, [v1], &pr, &mut vs3, Some(&mut rng.clone()))));
+                    if o.accepted() {
+                        ctx.rep.expect_fail(&id, &format!("{}/forged-proof-accepted/other-point", S::NAME),
+                            "proof for one point accepted at another point for a false value",
+                            fail_replay(&inst, &id, ctx.seed, "replayed single-point proof"));
+                    }
+                    // sanity: the same proof at its own point is accepted
+                    let mut vs4 = fresh_sponge();
+                    let o2 = Outcome::from(guarded(|| S::PC::check(&inst.vk, [&inst.comms[j]], &pt1, [v1], &pr, &mut vs4, Some(&mut rng.clone()))));
+                    if !o2.accepted() {
+                        ctx.rep.expect_fail(&id, &format!("{}/honest-rejected", S::NAME), "honest single-point proof rejected", fail_replay(&inst, &id, ctx.seed, "single-point open/check"));
+                    }
+                    ctx.rep.count(&format!("{}/forge-other-point", S::NAME));
+                    ctx.rep.case(&format!("{} forge=other-point out={:?}", inst.desc(), o), Some(format!("{}/{}/forge-otherpoint", S::NAME, npoly)));
+                }
+            }
+        }
         // proof-list shape: permuted / truncated / extended / duplicated
         if prop == "C05" || prop == "C03" {
             let shapes: Vec<(&str, Vec<SProof<S>>)> = {
